@@ -29,7 +29,7 @@ func init() {
 		Title: "Parsing is total: junk is rejected cleanly, accepted trees are well-formed",
 		Rule: "E1: every byte string of length <=2 and every string of length 3 over a 40-byte alphabet; UTF-8 malformations at every position of carrier programs; " +
 			"every token string up to the stated length over ten 16-token alphabets; every byte prefix and every single-token deletion / insertion / replacement / adjacent swap " +
-			"(thorough: all pairs of edits for the 30 shortest) of a corpus of valid programs; parser.ParseFunction on every (parameter text, body text) pair built from strings over 16 fragments (single tokens and the wrapper-closing / re-opening pieces }) and (function( and ){ ): one side every string of length <=4 (thorough 5) with three fixed partners, and both sides every string of length <=2, accepted only when each piece is a FormalParameterList / FunctionBody on its own and the literal spans the whole wrapper; every ES5 ReservedWord in every \\uXXXX spelling (one character escaped at every position, all, alternating; lower and upper case hex) in 35 Identifier positions (binding names, labels, operands, assignment targets; kept where the plainly spelled text is rejected, so the word is not a keyword of that position) and 6 IdentifierName positions. A case is non-trivial when otto accepted it (reference consulted, spans and Walk checked on every node) " +
+			"(thorough: all pairs of edits for the 30 shortest) of a corpus of valid programs; parser.ParseFunction on every (parameter text, body text) pair built from strings over 16 fragments (single tokens and the wrapper-closing / re-opening pieces }) and (function( and ){ ): one side every string of length <=4 with three fixed partners, and both sides every string of length <=2, accepted only when each piece is a FormalParameterList / FunctionBody on its own and the literal spans the whole wrapper; every ES5 ReservedWord in every \\uXXXX spelling (one character escaped at every position, all, alternating; lower and upper case hex) in 35 Identifier positions (binding names, labels, operands, assignment targets; kept where the plainly spelled text is rejected, so the word is not a keyword of that position) and 6 IdentifierName positions. A case is non-trivial when otto accepted it (reference consulted, spans and Walk checked on every node) " +
 			"or rejected it after consuming at least one token (error position beyond offset 0); every case is also run on a runtime and its global state compared.",
 		Families: []engine.Family{
 			{Name: "bytes", Run: runBytes},
